@@ -24,6 +24,12 @@ Theorem C17_source_deadline_sites : src_deadline_sites_ok = true.
 Proof. exact (eq_refl true). Qed.
 Print Assumptions C17_source_deadline_sites.
 
+(* T1: the fallback dial gets the same deadline context as the primary dial (Gen.fallback_dial_same_ctx); with the flag
+   false the model's fallback handshake is unbounded and C17_no_hang_dial fails *)
+Theorem C17_source_fallback_dial_bounded : fb_same_ctx = true.
+Proof. exact (eq_refl true). Qed.
+Print Assumptions C17_source_fallback_dial_bounded.
+
 Theorem C17_no_hang_dial : forall fuel cfg (s : srv), fx_arm cfg = true ->
   outcome_of (run (dial fuel cfg) (world0 s)) <> Hang.
 Proof. exact C17_dial_no_hang_l. Qed.
